@@ -1053,6 +1053,35 @@ def run_buffer_sources(ctx):
                 src[0] = 99
                 if r[1].raw_data[0] == 99:
                     ctx.violation(what="from_array_1d(copy=True) shares memory with an array.array source", dtype=str(dty), observed="shared", required="independent")
+    # every 1-D factory x every buffer-exporting sequence whose item type IS the requested dtype (the case in which a conversion can hand
+    # the caller's memory back unchanged): copy=True / default never shares, a write to the source afterwards is not seen
+    from nitypes.xy_data import XYData
+    facts = [("AnalogWaveform.from_array_1d", lambda src, dty, kw: [AnalogWaveform.from_array_1d(src, dty, **kw).raw_data]),
+             ("Spectrum.from_array_1d", lambda src, dty, kw: [Spectrum.from_array_1d(src, dty, **kw).data]),
+             ("XYData.from_arrays_1d (x)", lambda src, dty, kw: [XYData.from_arrays_1d(src, [0] * len(src), dty, **kw).x_data]),
+             ("XYData.from_arrays_1d (y)", lambda src, dty, kw: [XYData.from_arrays_1d([0] * len(src), src, dty, **kw).y_data]),
+             ("XYData.from_arrays_1d (both)", lambda src, dty, kw: (lambda o: [o.x_data, o.y_data])(XYData.from_arrays_1d(src, src, dty, **kw)))]
+    for dty, code in ((np.float64, "d"), (np.float32, "f"), (np.int32, "i"), (np.int16, "h"), (np.uint8, "B"), (np.int64, "q")):
+        for skind in ("array.array", "memoryview", "bytearray"):
+            if skind == "bytearray" and code != "B":
+                continue
+            for copy in (True, "default"):
+                for fname, f in facts:
+                    base = array.array(code, [1, 2, 3, 4])
+                    src = base if skind == "array.array" else memoryview(base) if skind == "memoryview" else bytearray([1, 2, 3, 4])
+                    kw = {} if copy == "default" else {"copy": True}
+                    r = outcome(lambda: f(src, dty, kw))
+                    n += 1
+                    ctx.case(("buffer-source-1d", fname, skind, str(np.dtype(dty)), str(copy)))
+                    if r[0] != "ok":
+                        continue
+                    before = [a.copy() for a in r[1]]
+                    if skind == "bytearray": src[0] = 99
+                    else: base[0] = 99
+                    probe = np.frombuffer(src, dty) if skind != "memoryview" else np.frombuffer(base, dty)
+                    if any(not np.array_equal(a, b) for a, b in zip(r[1], before)) or any(np.shares_memory(a, probe) for a in r[1]):
+                        ctx.violation(what="a copying factory shares memory with a buffer-exporting sequence", factory=fname, source=skind, dtype=str(np.dtype(dty)), copy=str(copy),
+                                      observed="a write to the source changed the object / shares memory", required="independent")
     # load_data(copy=True) into a waveform whose buffer is borrowed (cannot grow): copy into it when it fits, otherwise refuse or allocate - never adopt
     for cls, key, dty in ((AnalogWaveform, "raw_data", np.float64), (ComplexWaveform, "raw_data", np.complex128), (Spectrum, "data", np.float64), (DigitalWaveform, "data", np.uint8)):
         for backing in ("slice-view", "2d-row", "frombuffer"):
